@@ -35,7 +35,16 @@ def gen_method(rng, which):
                 ops += [["else"], ["stmt", ["assign", "a", None, ["*", [["v", "a"], ["c", 2]]], []]], ["endelse"]]
         elif r < 0.65:
             ops.append(["stmt", ["assign", "w", None, ["call", "<builtin>array", [["c", 3]], []], []]])
-            ops.append(["stmt", ["assign", "w", ["v", "i"], ["+", [["v", "i"], ["v", "a"]]], [["i", ["c", 0], ["c", 3]]]]])
+            if rng.random() < 0.5:
+                # loop bounds held in temporaries that the other method uses too (renaming must reach BOTH bounds)
+                lo_v = rng.randint(0, 2) if which == "A" else rng.randint(0, 1)
+                ops.append(["stmt", ["assign", "lo", None, ["c", lo_v], []]])
+                ops.append(["stmt", ["assign", "hi", None, ["c", rng.randint(2, 3)], []]])
+                bounds = [["i", ["v", "lo"], ["v", "hi"]]]
+                ops.append(["stmt", ["assign", "w", ["v", "i"], ["c", 0], [["i", ["c", 0], ["c", 3]]]]])
+            else:
+                bounds = [["i", ["c", 0], ["c", 3]]]
+            ops.append(["stmt", ["assign", "w", ["v", "i"], ["+", [["v", "i"], ["v", "a"]]], bounds]])
             ops.append(["stmt", ["assign", "t1", None, ["+", [["v", "t1"], ["sub", ["v", "w"], ["c", 1]]]], []]])
         elif r < 0.72:
             ops.append(["stmt", ["call", ["a", "t1"], "<func>h", [["v", "t1"]], []]])
